@@ -338,3 +338,27 @@ package syntax
 //@   ensures @null old(len(data) == 4 && data[0] == 'n' && data[1] == 'u' && data[2] == 'l' && data[3] == 'l') ==> result.0 == data && !result.1 && isnil(result.2)
 //@ func syntax.UserType.FilterJson property C17
 //@   ensures @null old(len(data) == 4 && data[0] == 'n' && data[1] == 'u' && data[2] == 'l' && data[3] == 'l') ==> result.0 == data && !result.1 && isnil(result.2)
+
+// ---------------------------------------------------------------- C13 output file naming
+
+// Default base file name of an output: "" unless it is a file/directory; the explicit out name; the id for path/file/complex types; otherwise id.typename.
+//@ func syntax.StructMember.GetOutFilename property C13
+//@   pure
+//@   ensures @notfile s.isFile != KindIsFile && s.isFile != KindIsDirectory ==> result == ""
+//@   ensures @outname (s.isFile == KindIsFile || s.isFile == KindIsDirectory) && s.OutName != "" ==> result == s.OutName
+//@   ensures @plain (s.isFile == KindIsFile || s.isFile == KindIsDirectory) && s.OutName == "" && (s.isComplex || s.Tname.Tname == KindFile || s.Tname.Tname == KindPath) ==> result == s.Id
+//@   ensures @typed (s.isFile == KindIsFile || s.isFile == KindIsDirectory) && s.OutName == "" && !s.isComplex && s.Tname.Tname != KindFile && s.Tname.Tname != KindPath ==> result == s.Id + "." + s.Tname.Tname
+
+// A struct with a file or directory member is itself materialised as a directory.
+//@ func syntax.StructMember.compile property C13
+//@   requires st.isFile == KindIsNotFile || st.isFile == KindMayContainPaths || st.isFile == KindIsDirectory
+//@   ensures @directory isnil(result) && (member.isFile == KindIsFile || member.isFile == KindIsDirectory) ==> st.isFile == KindIsDirectory
+//@   ensures @maycontain isnil(result) && member.isFile == KindMayContainPaths ==> st.isFile != KindIsNotFile
+//@   ensures @monotone old(st.isFile) == KindIsDirectory ==> st.isFile == KindIsDirectory
+
+//@ func syntax.IsLegalUnixFilename property C13
+//@   pure
+//@   ensures @sound isnil(result) ==> len(name) <= 255 && name != "" && name != "." && name != ".." && forall i :: 0 <= i && i < len(name) ==> name[i] != '/' && name[i] != 0
+//@   ensures @complete len(name) <= 255 && name != "" && name != "." && name != ".." && (forall i :: 0 <= i && i < len(name) ==> name[i] != '/' && name[i] != 0) ==> isnil(result)
+//@   loop 1 invariant 0 <= strpos() && strpos() <= len(name)
+//@   loop 1 invariant forall i :: 0 <= i && i < strpos() ==> name[i] != '/' && name[i] != 0
